@@ -41,7 +41,7 @@ Proof. unfold h_group. destruct (nth_error h c) as [[]|]; split; intros H; try d
 Inductive lview := LT (cols idxs : list oid) | LC (ty : coltype) | LR (c1 c2 : option (list oid)) | LG (items : list oid)
                   | LI (o : option oid) (subs : option (list subject)) | LO.
 Definition lv (v : cview) : lview :=
-  match v with VT cols idxs => LT cols idxs | VC _ ty => LC ty | VR a b => LR a b | VG i => LG i | VI o s => LI o s | _ => LO end.
+  match v with VT cols idxs => LT cols idxs | VC _ ty _ => LC ty | VR a b => LR a b | VG i => LG i | VI o s => LI o s | _ => LO end.
 Definition lview_of (ob : obj) : lview := lv (cview_of ob).
 
 Lemma lview_ref ob r : lview_of ob = lview_of (OReference r) -> exists r', ob = OReference r' /\ r_col1 r' = r_col1 r /\ r_col2 r' = r_col2 r.
